@@ -115,7 +115,7 @@ def h_thumbprint(ctx):
 
 
 # ------------------------------------------------------------------ E2: kid histories
-FIXTURES = ["ec-pem-nokid", "ec-dict-explicit-kid", "oct-bytes-nokid", "rsa-dict-param-kid", "okp-native-nokid", "ec-lz-pem-nokid"]
+FIXTURES = ["ec-pem-nokid", "ec-dict-explicit-kid", "oct-bytes-nokid", "rsa-dict-param-kid", "okp-native-nokid", "ec-lz-pem-nokid", "ec-dict-empty-kid", "oct-param-empty-kid"]
 
 
 class KidModel:
@@ -143,6 +143,16 @@ class KidModel:
             st["key"] = A.jkey({**jwk, "kid": "explicit-kid"}, "dict")
             st["params"] = None
             st["explicit"] = "explicit-kid"
+        elif f == "ec-dict-empty-kid":
+            jwk = A.ec_full("P-256", 9)
+            st["key"] = A.jkey({**jwk, "kid": ""}, "dict")
+            st["params"] = None
+            st["explicit"] = ""
+        elif f == "oct-param-empty-kid":
+            jwk = A.oct_jwk(32, "hash", 4)
+            st["params"] = {"kid": ""}
+            st["key"] = A.jkey(jwk, "bytes", params=st["params"])
+            st["explicit"] = ""
         elif f == "oct-bytes-nokid":
             jwk = A.oct_jwk(32)
             st["key"] = A.jkey(jwk, "bytes", params=params)
@@ -206,7 +216,8 @@ class KidModel:
             k2 = A.jkey(other, "pem", params=st["params"])
             k2.ensure_kid()
             out["k2_kid"] = k2.kid
-            out["k2_want"] = (st["params"] or {}).get("kid") or rjwk.thumbprint(rjwk.public_of(other))
+            pk = (st["params"] or {}).get("kid")
+            out["k2_want"] = pk if pk is not None else rjwk.thumbprint(rjwk.public_of(other))
         elif op == "check_use":
             key.check_use("sig")
         out["kid_after"] = key.kid if op != "kid" else out["kid"]
@@ -227,9 +238,9 @@ class KidModel:
         if obs["tp_after"] != want:
             vs.append(viol(f"thumbprint changed or wrong after {op} [{f}]", f"history {hist + (op,)}: {obs['tp_after']} != RFC 7638 {want}"))
         kid = obs["kid_after"]
-        expected_kid = explicit or want
+        expected_kid = explicit if explicit is not None else want
         if kid is not None and kid != expected_kid:
-            vs.append(viol(f"kid is not the {'explicit kid' if explicit else 'thumbprint'} after {op} [{f}]",
+            vs.append(viol(f"kid is not the {'explicit kid' if explicit is not None else 'thumbprint'} after {op} [{f}]",
                            f"history {hist + (op,)}: kid={kid!r}, expected {expected_kid!r}"))
         seen = [k for k in st["kids_seen"] if k is not None]
         if seen and (kid is None or any(k != seen[0] for k in seen)):
